@@ -134,6 +134,8 @@ func (b *bmpClient) loop() {
 				atomic.StoreInt64(&b.downtime, time.Now().Unix())
 				conn.Close()
 			}()
+			// what the previous connection was told says nothing about this one
+			b.ribout = newribout()
 			ops := []WatchOption{WatchPeer()}
 			if b.c.RouteMonitoringPolicy == oc.BMP_ROUTE_MONITORING_POLICY_TYPE_BOTH {
 				b.s.logger.Warn("both option for route-monitoring-policy is obsoleted", slog.String("Topic", "bmp"))
@@ -227,6 +229,13 @@ func (b *bmpClient) loop() {
 							var pathList []*table.Path
 							if msg.Init {
 								pathList = msg.PathList
+								if msg.PostPolicy {
+									// the snapshot is part of what the station has been
+									// told: a later withdrawal of these paths must be sent
+									for _, p := range pathList {
+										b.ribout.update(p)
+									}
+								}
 							} else {
 								for _, p := range msg.PathList {
 									if b.ribout.update(p) {
